@@ -14,7 +14,7 @@ def stages(tier, v, stats, seed):
 
 
 def run(tier):
-    return exportchecks.run_property(PROP, ["samefile", "samefile_all", "samefile_abs", "nasty", "imports", "underscore", "faults"], tier, extra_stage=stages,
+    return exportchecks.run_property(PROP, ["samefile", "samefile_all", "samefile_abs", "nasty", "imports", "underscore", "otherext", "faults"], tier, extra_stage=stages,
                                      extra_assumptions=["thread runs: a 60 ms pause inside the critical section is enough for a second thread to get in if the lock did not keep it out (probe); event order is a sequence number taken inside the hook callback"])
 
 
